@@ -276,3 +276,12 @@ def shortcuts(sym, which):
         out = list(envs._envs[0].read())
         sym.check(out[1]['context'][0] == 's', "impute(['mode','mean']): the string feature was not imputed by the first statistic (mode)")
         sym.check(out[1]['context'][1] is not None, "impute(['mode','mean']): the numeric feature was not imputed")
+        # the shortcut with a list equals the chain of the individual filters, for every order, indicator and window
+        stats = sym.choice('stats', [['mode','mean'],['mean','mode'],['median','mode'],['mean']]); ind = sym.flag('indicator'); using = sym.choice('using', [None, 2])
+        C2 = [{'context':['s', 1.5, 'x'], 'actions':[1,2], 'rewards':[1,0]}, {'context':[None, None, 'y'], 'actions':[1,2], 'rewards':[1,0]},
+              {'context':['t', 4, None], 'actions':[1,2], 'rewards':[1,0]}, {'context':['t', None, 'y'], 'actions':[1,2], 'rewards':[1,0]}]
+        got = [i['context'] for i in Environments(_Env(C2,'C')).impute(stats, indicator=ind, using=using)._envs[0].read()]
+        chain = [dict(c) for c in C2]
+        for st in stats: chain = list(Impute(st, ind, using).filter(chain))
+        exp = [i['context'] for i in chain]
+        sym.check(len(got) == len(exp) and all(len(g) == len(e) and all(x == y for x,y in zip(g,e)) for g,e in zip(got,exp)), f"Environments.impute({stats}, indicator={ind}, using={using}) differs from applying the Impute filters one after the other: {got} vs {exp}")
